@@ -3,6 +3,8 @@ from common import *
 OBLIGATIONS = [
     ob('C10.status', 'verif_frag::status::c10_status', 'for all i32 error counts: exit status is 0 iff no error else 1; a parse error maps to 2', units=['status']),
 ]
+OBLIGATIONS.append(ob('C10.orderby.position.rejected', 'verif_frag::orderby::c05_positional', 'an ORDER BY position outside 1..=|select list| (0, too large) is a parse error, never a silently substituted column (positional arm of parse_order_by, |columns| <= 3, every usize position)', units=['orderby_arms'], complete=False, bound='select list of <= 3 columns'))
+OBLIGATIONS.append(ob('C10.orderby.desc.rejected', 'verif_frag::orderby::c05_desc', 'a DESC that follows no key is a parse error (DESC arm of parse_order_by)', units=['orderby_arms'], complete=False, bound='<= 3 keys'))
 PARSER_FNS = ['next_lexem', 'drop_lexem', 'there_are_remaining_lexems', 'parse_where', 'parse_expr', 'parse_and',
               'parse_cond', 'parse_add_sub', 'parse_mul_div', 'parse_paren', 'parse_func_scalar', 'parse_function',
               'parse_group_by', 'parse_order_by', 'parse_limit', 'parse_output_format', 'negate_expr_op']
